@@ -465,7 +465,11 @@ func (run *vfProdRun) record(msg *ProducerMessage, ok bool, err error) {
 		if !msg.Timestamp.IsZero() {
 			o.TsMs = msg.Timestamp.UnixNano() / int64(time.Millisecond)
 		}
-		if idx, isInt := msg.Metadata.(int); isInt && idx >= 0 && idx < len(run.msgs) && run.msgs[idx] == msg {
+		run.mu.Lock() // (run.msgs[i] is replaced by the submitting goroutine when message objects are recycled)
+		idx, isInt := msg.Metadata.(int)
+		own := isInt && idx >= 0 && idx < len(run.msgs) && run.msgs[idx] == msg
+		run.mu.Unlock()
+		if own {
 			o.Idx = idx
 		} else {
 			o.Stranger = fmt.Sprintf("event for a message the application did not submit (topic=%q partition=%d metadata=%v flags=%d)", msg.Topic, msg.Partition, msg.Metadata, msg.flags)
